@@ -41,7 +41,7 @@ def build(case):
     """case: dict(fields=[(name, decl)], methods={name: kind}, settings=[(selector method, [field names])])"""
     top, nested = [field('name', 1, 'string'), field('payload', 2, 'string')], [field('keep', 1, 'string')]
     for i, (fname, d) in enumerate(case['fields']):
-        f = field(fname, 10 + i, d['type'], optional=d['optional'], required=d['required'], uuid4=d['annotated'])
+        f = field(fname, 10 + i, d['type'], optional=d['optional'], required=d['required'], uuid4=d['annotated'], repeated=d.get('repeated', False))
         (top if d['position'] == 'top' else nested).append(f)
     top.append(field('inner', 3, Q('Inner')))
     msgs = [message('Inner', nested), message('Req', top), message('Resp', [field('ok', 1, 'bool')])]
@@ -87,6 +87,9 @@ def cases():
     for c in list(out):
         if c['accept'] and c['drive'] and not c.get('long_running'):
             out.append(dict(c, id=c['id'] + '|ads-templates', ads=True))
+    # a *repeated* string is not "a string" field
+    out.append(dict(id='decl/repeated-string', fields=[('request_id', dict(GOOD, repeated=True))], methods={'Do': 'unary'},
+                    settings=[('Do', ['request_id'])], accept=False, drive=[]))
     for kind in ('server-streaming', 'client-streaming', 'bidi'):
         out.append(dict(id=f'method/{kind}', fields=[('request_id', GOOD)], methods={'Do': kind}, settings=[('Do', ['request_id'])],
                         accept=False, drive=[]))
